@@ -139,6 +139,10 @@ def job(payload):
         os.makedirs(os.path.join(common.RUN, "forests"), exist_ok=True)
         for i in range(count):
             f = dwforest.gen_forest(rng, rng.choice(["imports", "imports", "imports", "plain", "deep", "many"]))
+            if rng.random() < 0.3:
+                # units that consist of their header only, anywhere between the others (first, in a row, last)
+                for _ in range(rng.randint(1, 3)):
+                    f.units.insert(rng.randint(0, len(f.units)), dwgen.Unit(None, rng.choice([2, 3, 4, 5])))
             p = os.path.join(common.RUN, "forests", "c05-%d-%d.o" % (seed, i))
             dwgen.write(f, p)
             paths.append((p, True))
